@@ -9,7 +9,7 @@
    timer (context.WithTimeout, Client.Timeout, ResponseHeaderTimeout) the timer may fire before
    the peer reached its stall point: the allowed set is the union over all earlier positions. *)
 From Coq Require Import List Bool Arith.
-From ReqV Require Export Lib.Bytes Model.Lifecycle Model.RetryLife Model.LifecycleH2.
+From ReqV Require Export Lib.Bytes Model.Lifecycle Model.RetryLife Model.LifecycleH2 Model.LifecycleH3.
 Import ListNotations.
 
 Inductive ocall := OResp | OErr (e : err).
@@ -32,9 +32,19 @@ Record obs2 := mkObs2 {
   o2_req_body_closed : bool
 }.
 
+Record obs3 := mkObs3 {
+  o3_call : ocall;
+  o3_body : obody;
+  o3_peer_told : option bool;   (* request reached the handler: did the handler see the stream cancelled *)
+  o3_req_body : bool;
+  o3_req_body_closed : bool;
+  o3_follow_ok : bool           (* the next request on the same client succeeded *)
+}.
+
 Inductive c08_case :=
 | H1Case (c : cfg1) (auto union : bool) (pre racy inj post : list label) (o : obs1)
 | H2Case (has_body union : bool) (pre racy inj : list label2) (o : obs2)
+| H3Case (c : cfg3) (union : bool) (pre racy inj : list label3) (o : obs3)
 (* retry layer: labels up to and including the injection; observed: the call's error and the
    number of attempts that reached the peer *)
 | RetryCase (max : option nat) (ls : list rlabel) (o_err : ocall) (o_seen : nat).
@@ -248,6 +258,62 @@ Definition matches2 (o : obs2) (s : h2) : bool :=
   | _ => false
   end.
 
+(* ---- HTTP/3: the same script interpreter over step3 (current code: fx = true) ---- *)
+Inductive item3 := Must3 (l : label3) | May3 (l : label3) | Q3 | P3.
+
+Fixpoint exec3 (c : cfg3) (ss : list h3) (is : list item3) : option (list h3) :=
+  match is with
+  | [] => Some ss
+  | Must3 l :: r =>
+      match flat_map (fun s => match step3 true c s l with Some s' => [s'] | None => [] end) ss with
+      | [] => None
+      | ss' => exec3 c ss' r
+      end
+  | May3 l :: r => exec3 c (map (fun s => match step3 true c s l with Some s' => s' | None => s end) ss) r
+  | Q3 :: r => match collect (map (quiesce3 fuel1 true c) ss) with Some ss' => exec3 c ss' r | None => None end
+  | P3 :: r => exec3 c (flat_map (partial3 12 true c) ss) r
+  end.
+
+Definition seqQ3 (ls : list label3) : list item3 := flat_map (fun l => [Must3 l; Q3]) ls.
+Definition mayQ3 (ls : list label3) : list item3 := flat_map (fun l => [May3 l; Q3]) ls.
+
+Definition scripts3 (union : bool) (pre racy inj : list label3) : list (list item3) :=
+  match racy with
+  | [] =>
+      (if union then map (fun p => Q3 :: seqQ3 p ++ seqQ3 inj) (prefixes pre)
+       else [Q3 :: seqQ3 pre ++ seqQ3 inj]) ++
+      (match pre, union with [], _ | _, true => [seqQ3 inj] | _, _ => [] end)
+  | _ =>
+      let body := flat_map (fun p =>
+        let done := firstn p racy in
+        let rest := skipn p racy in
+        (seqQ3 pre ++ seqQ3 done ++ map Must3 inj ++ [P3] ++ flat_map (fun l => [May3 l; P3]) rest ++ [Q3]) ::
+        (seqQ3 pre ++ seqQ3 done ++ seqQ3 inj ++ mayQ3 rest) ::
+        (seqQ3 pre ++ seqQ3 done ++ map Must3 inj ++ mayQ3 rest) ::
+        match rest with
+        | l :: rest' => [seqQ3 pre ++ seqQ3 done ++ [Must3 l] ++ map Must3 inj ++ [Q3] ++ mayQ3 rest']
+        | [] => []
+        end) (seq 0 (S (length racy))) in
+      map (cons Q3) body ++ match pre with [] => body | _ => [] end
+  end.
+
+Definition matches3 (o : obs3) (s : h3) : bool :=
+  match c3 s with
+  | C3Ret r =>
+      ocall_eqb (match r with CResp _ => OResp | CErr e => OErr e end) (o3_call o) &&
+      match pipe3 s with
+      | BNone => obody_eqb ONone (o3_body o)
+      | BEOF => obody_eqb OEof (o3_body o)
+      | BErr e => obody_eqb (OBErr e) (o3_body o)
+      | _ => false
+      end &&
+      match o3_peer_told o with Some b => Bool.eqb (scancel s) b | None => true end &&
+      (negb (o3_req_body o) || Bool.eqb (bclosed3 s) (o3_req_body_closed o)) &&
+      Bool.eqb (follow_ok true s) (o3_follow_ok o) &&
+      negb (cg3 s) && match bg s with BgRunning => false | _ => true end
+  | _ => false
+  end.
+
 Definition c08_check (k : c08_case) : bool :=
   match k with
   | H1Case c auto union pre racy inj post o =>
@@ -259,6 +325,11 @@ Definition c08_check (k : c08_case) : bool :=
       match flat_map (fun sc => some_or_nil (exec2 hb [init2] sc)) (scripts2 union pre racy inj) with
       | [] => false
       | fs => existsb (matches2 o) fs
+      end
+  | H3Case c union pre racy inj o =>
+      match flat_map (fun sc => some_or_nil (exec3 c [init3 c] sc)) (scripts3 union pre racy inj) with
+      | [] => false
+      | fs => existsb (matches3 o) fs
       end
   | RetryCase max ls oe seen =>
       match rrun true max rinit ls with
